@@ -83,6 +83,8 @@ var (
 		"sz=5", "n=5kb",
 		// bounds in a unit coarser than the label's, next to label values that are not whole multiples of it
 		":1s", "1s", "sz=:5kb", ":2kb",
+		// a key-restricted expression whose value part contains '=' itself (the key ends at the first '=')
+		"k=v=w", "k=v=.*", "k=.*=w",
 	}
 	tagValsSmall = []string{"v", "k=v", "v,w", "k=v,w", "k:v", "5", "2:8", "n=2:8", "sz=5kb", "1b:2kb", ":3ms"}
 	tagKeyRx     = []string{"k", "j", "n", "sz", "k|n", "^.$", "x"}
@@ -104,6 +106,7 @@ var labelSets = []labelSet{
 	{name: "k:v,w", str: map[string][]string{"k": {"v", "w"}}},
 	{name: "k:w j:v", str: map[string][]string{"k": {"w"}, "j": {"v"}}},
 	{name: "j:w", str: map[string][]string{"j": {"w"}}},
+	{name: "k:v=w", str: map[string][]string{"k": {"v=w"}}},
 	{name: "n:5", num: map[string][]int64{"n": {5}}},
 	{name: "n:2,9", num: map[string][]int64{"n": {2, 9}}},
 	{name: "sz:5120", num: map[string][]int64{"sz": {5120}}},
